@@ -519,7 +519,7 @@ var borrowed = map[string][]borrow{
 	"C05": {{From: "C12", Rule: "C12.O1-O2-O6", As: "QUORUM-R", Why: "as for C01"}, {From: "C12", Rule: "C12.O3-O4", As: "QUORUM-Q", Why: "as for C01"}, {From: "C12", Rule: "C12.O5", As: "QUORUM-CHECK", Why: "approval relies on the check"}, {From: "C16", Rule: "C16.FLAG", As: "CASCADEFLAG", Why: "the HA-node count of the 'coordination problem' guard skips cascade replicas by this flag"}, {From: "C16", Rule: "C16.COUNT", As: "COUNTERS", Why: "the counters approval compares"}},
 	"C12": {{From: "C01", Rule: "C01.g3", As: "RECOUNT", Why: "the recount after the freeze hands the published list and the frozen count to the check"}, {From: "C16", Rule: "C16.COUNT", As: "COUNTERS", Why: "the alive-replica count handed to the check counts replicas only"}, {From: "C04", Rule: "C04.BASIS", As: "BASIS", Why: "the acknowledgement count sent to the master is computed from this iteration's list", Only: "count-basis:this-iteration"}},
 	"C03": {{From: "C02", Rule: "C02.AUTO-i", As: "QUORUMLOSS", Why: "a manager that released the lock after losing its quorum ends the iteration"}},
-	"C06": {{From: "C02", Rule: "C02.AUTO-i", As: "QUORUMLOSS", Why: "a process that gave the lock away does not go on to process the request"}},
+	"C06": {{From: "C20", Rule: "C20.GO", As: "RETURNS", Why: "an attempt is counted, timed out and aborted only if the procedure returns: the forced read-only's helper goroutine cannot strand its caller", Only: "go@(*mysql.Node).SetReadOnlyWithForce"}, {From: "C02", Rule: "C02.AUTO-i", As: "QUORUMLOSS", Why: "a process that gave the lock away does not go on to process the request"}},
 	"C02": {{From: "C03", Rule: "C03.SESSION", As: "LOCKCACHE", Why: "one manager: the lock cache dies with the session"}},
 	"C07": {{From: "C03", Rule: "C03.SESSION", As: "LOCKCACHE", Why: "the lock re-checks stop a deposed manager only if the cache is dropped on session loss"}, {From: "C01", Rule: "C01.g6", As: "POSITIONS", Why: "a resumed run must see the received-but-unapplied tails again: positions include the retrieved set whatever the thread state"}},
 	"C10": {{From: "C13", Rule: "C13.CALLERS", As: "RELATIONS", Why: "repair's progress test uses 'ahead' on (new, old)"}},
